@@ -8,7 +8,7 @@ from typing import Dict, List, Optional, Set, Tuple
 from ..core import astutil as A
 from ..core.index import AnalysisError, ClassInfo, FuncInfo
 from ..selftest import M
-from .common import may_conds, atoms_of, is_early_exit_guard, BASE_FILTER, BASE_IFILTER, T, attr_stores, calls_named, conds, every_origin, facts, need, subscript_stores, where
+from .common import branch_values, may_conds, atoms_of, is_early_exit_guard, BASE_FILTER, BASE_IFILTER, T, attr_stores, calls_named, conds, every_origin, facts, need, subscript_stores, where
 from . import c12, c13
 
 PRE = "ufo2ft.preProcessor"
@@ -49,6 +49,8 @@ def run(prog, chk):
     ]
     chk.decided += ["a composite is interpolated exactly into the masters whose location its components need and it lacks (needLocations - haveLocations): a sparse master never receives glyphs "
                     "that no component reference ties to its layer (R09.11)"]
+    chk.decided += ["the 'this is the default source' flag handed to the outline compiler is 'the source's index equals the instantiator's default source index': every other master, sparse layer or "
+                    "stand-alone UFO alike, gets placeholder glyphs for component bases it lacks, so composites keep their components in every master (R09.12)"]
     chk.not_decided += ["that cu2qu yields equal segment counts for all masters (fontTools)", "point compatibility of the output itself", "custom filters supplied by the caller"]
     chk.guard(r091, prog, chk)
     chk.guard(r092, prog, chk)
@@ -61,6 +63,7 @@ def run(prog, chk):
     chk.guard(c12.masters_force_none, prog, chk, "R09.9")
     chk.guard(check_master_isolation, prog, chk, "R09.10")
     chk.guard(r0911, prog, chk)
+    chk.guard(r0912, prog, chk)
     from .c08 import check_memo_decorators
     chk.guard(lambda prog_, chk_: (check_memo_decorators(prog_, chk_, "R09.8", only_modules=("ufo2ft.instantiator", "ufo2ft.filters", "ufo2ft.preProcessor")), None)[1], prog, chk)
 
@@ -545,7 +548,41 @@ def r0911(prog, chk):
     chk.minimum("R09.11", 1)
 
 
+# ----------------------------------------------------------------------------- R09.12
+def r0912(prog, chk):
+    ix = prog.ix
+    f = ix.get_method("ufo2ft._compilers.baseCompiler.BaseInterpolatableCompiler", "compile", own=True)
+    sts = [(s_, t, v) for s_, t, v in attr_stores(f, "compilingVFDefaultSource") if T(t.value) == "self"]
+    need(len(sts) >= 1, f"cannot interpret {f.short}: compilingVFDefaultSource")
+    for s_, t, v in sts:
+        ok = isinstance(v, ast.Compare) and len(v.ops) == 1 and isinstance(v.ops[0], ast.Eq)
+        if ok:
+            sides = [v.left, v.comparators[0]]
+            loops = [a for a in ix.ancestors(s_) if isinstance(a, ast.For)]
+            idx = None
+            if loops and isinstance(loops[0].iter, ast.Call) and A.callee_name(loops[0].iter) == "enumerate" and isinstance(loops[0].target, ast.Tuple) and isinstance(loops[0].target.elts[0], ast.Name):
+                idx = loops[0].target.elts[0].id
+            is_idx = [isinstance(x, ast.Name) and x.id == idx for x in sides]
+            other = [x for x, i_ in zip(sides, is_idx) if not i_]
+            okd = False
+            if len(other) == 1 and any(is_idx):
+                bv = branch_values(prog, f, other[0])
+                real = [x for x, fs in bv if not A.is_const(x, None)]
+                okd = bool(real) and all(T(x) == "self.instantiator.default_source_idx" for x in real)
+            ok = okd and idx is not None
+            # the enumeration runs over the sources in the order the instantiator indexes them
+            if ok:
+                it = loops[0].iter.args[0]
+                ok = isinstance(it, ast.Call) and A.callee_name(it) in ("zip", "zip_strict") and it.args and T(it.args[0]) == f.params()[1]
+        chk.ob("R09.12", f"{f.short}|compilingVFDefaultSource = (index of the source == instantiator.default_source_idx)", ok, where(f, s_), detail=T(v, 70),
+               message=f"{f.short}: the default-source flag is `{T(v, 60)}`, not 'this source is the instantiator's default source': a non-default master that is not flagged as such "
+                       f"(e.g. a sparse master given as its own UFO) gets no placeholder glyphs, its composites lose the components whose bases it lacks and the masters are no longer compatible")
+    chk.minimum("R09.12", 1)
+
+
 MUTANTS = [
+    M("default-source flag keyed off the layer name (seeded C09j)", "ufo2ft/_compilers/baseCompiler.py", "BaseInterpolatableCompiler.compile",
+      "self.compilingVFDefaultSource = i == default_idx", "self.compilingVFDefaultSource = layerName is None", rule="R09.12"),
     M("composite interpolated into every master that lacks it (seeded C09i)", "ufo2ft/filters/base.py", "BaseIFilter.ensureCompositeDefinedAtComponentLocations",
       "self.hashableLocation(interpolatedLayer.location) in locationsToAdd", "self.hashableLocation(interpolatedLayer.location) not in haveLocations", rule="R09.11"),
     M("missing locations written as need-and-not-have", "ufo2ft/filters/base.py", "BaseIFilter.ensureCompositeDefinedAtComponentLocations",
